@@ -23,6 +23,12 @@ use crate::{
     },
 };
 
+/// the protocol's tag names
+pub const ALL_TAG_NAMES: &[&str] = &[
+    "Artist", "ArtistSort", "Album", "AlbumSort", "AlbumArtist", "AlbumArtistSort", "Title", "Track", "Name", "Genre", "Date", "OriginalDate", "Composer", "ComposerSort", "Performer", "Conductor", "Work", "Ensemble", "Movement",
+    "MovementNumber", "Location", "Grouping", "Comment", "Disc", "Label", "MUSICBRAINZ_ARTISTID", "MUSICBRAINZ_ALBUMID", "MUSICBRAINZ_ALBUMARTISTID", "MUSICBRAINZ_TRACKID", "MUSICBRAINZ_RELEASETRACKID", "MUSICBRAINZ_WORKID",
+];
+
 pub const VALUE_SIGMA: &[&str] = &["a", " ", "\"", "'", "\\", "(", ")", "!", "=", "\u{e9}", "AND"];
 
 #[derive(Clone, Debug, PartialEq, Eq)]
@@ -344,12 +350,74 @@ pub fn run(tier: Tier) -> i32 {
         }
     }
 
-    let acc = acc1.merge(acc2).merge(acc3).merge(acc4);
+    // (5) every tag of the protocol (named variant and what Tag::try_from makes of its name) on a leaf
+    let mut acc5 = Acc::default();
+    for name in ALL_TAG_NAMES {
+        for tag in [Tag::try_from(*name).unwrap_or_else(|_| machinery_error("C11: tag name table")), Tag::try_from(name.to_lowercase().as_str()).unwrap()] {
+            for (op, ops) in OPS {
+                acc5.evaluations += 1;
+                acc5.nontrivial += 1;
+                acc5.transitions += 4;
+                let f = Filter::new(tag.clone(), op, "v w");
+                let mirror = Expr::Tag { tag: name.as_bytes().to_vec(), op: ops.to_string(), value: b"v w".to_vec() };
+                if let Err(why) = roundtrip(&f, &mirror) {
+                    acc5.viol.push(Violation::new("C11/tag-name", format!("filter on tag {name}: {why}"), json!({"tag_name": name})));
+                }
+            }
+        }
+    }
+    // (6) histories: a filter that has already been rendered (used as an argument) and is then
+    // negated / extended / cloned must render like a freshly built one
+    let mut acc6 = Acc::default();
+    {
+        use mpd_client::protocol::command::Command as RawCommand;
+        let leaf = |v: &str| (Filter::tag(Tag::Artist, v), Expr::Tag { tag: b"Artist".to_vec(), op: "==".into(), value: v.as_bytes().to_vec() });
+        let render_once = |f: &Filter| {
+            let _ = wire_of_command(RawCommand::new("find").argument(f));
+            let _ = wire_of_command(Find::new(f.clone()).command());
+        };
+        for v in ["x", "a b", "it's"] {
+            let steps: Vec<(&str, Box<dyn Fn(Filter, Expr) -> (Filter, Expr)>)> = vec![
+                ("negate", Box::new(|f: Filter, e: Expr| (f.negate(), Expr::Not(Box::new(e))))),
+                ("not-op", Box::new(|f: Filter, e: Expr| (!f, Expr::Not(Box::new(e))))),
+                ("and-right", Box::new(|f: Filter, e: Expr| (f.and(Filter::tag(Tag::Album, "y")), Expr::And(vec![e, Expr::Tag { tag: b"Album".to_vec(), op: "==".into(), value: b"y".to_vec() }])))),
+                ("and-left", Box::new(|f: Filter, e: Expr| (Filter::tag(Tag::Album, "y").and(f), Expr::And(vec![Expr::Tag { tag: b"Album".to_vec(), op: "==".into(), value: b"y".to_vec() }, e])))),
+                ("clone", Box::new(|f: Filter, e: Expr| (f.clone(), e))),
+            ];
+            // every sequence of <= 3 steps, rendering after each step (and once before any)
+            let n = steps.len();
+            for depth in 1..=3usize {
+                for code in 0..n.pow(depth as u32) {
+                    let (mut f, mut e) = leaf(v);
+                    render_once(&f);
+                    let mut c = code;
+                    let mut names = Vec::new();
+                    for _ in 0..depth {
+                        let (nm, step) = &steps[c % n];
+                        c /= n;
+                        names.push(*nm);
+                        let (f2, e2) = step(f, e);
+                        f = f2;
+                        e = e2;
+                        acc6.evaluations += 1;
+                        acc6.nontrivial += 1;
+                        acc6.transitions += 4;
+                        if let Err(why) = roundtrip(&f, &e) {
+                            acc6.viol.push(Violation::new("C11/history-dependent-rendering", format!("filter <{v}> rendered, then {names:?}: {why}"), json!({"history": names, "value": v})));
+                            break;
+                        }
+                        render_once(&f);
+                    }
+                }
+            }
+        }
+    }
+    let acc = acc1.merge(acc2).merge(acc3).merge(acc4).merge(acc5).merge(acc6);
     let mut cov = Coverage::default();
     cov.evaluations = acc.evaluations;
     cov.distinct_nontrivial = acc.nontrivial;
     cov.rule = format!(
-        "{} tree shapes (<=3 leaves, nesting <=3, NOT via negate() and via `!`, AND in both association orders) x every assignment of the 8 leaf kinds (5 operators, Filter::tag, tag_exists, tag_absent) with rotating tags; every tag x kind on a single leaf; at one leaf at a time every value of length <= {} over {:?} ({} values); all pairs of single-symbol values on a two-leaf AND; each rendered through find, count, list…filter and count…group; non-trivial = trees with several leaves or a value containing a non-alphanumeric byte",
+        "{} tree shapes (<=3 leaves, nesting <=3, NOT via negate() and via `!`, AND in both association orders) x every assignment of the 8 leaf kinds (5 operators, Filter::tag, tag_exists, tag_absent) with rotating tags; every tag x kind on a single leaf; at one leaf at a time every value of length <= {} over {:?} ({} values); all pairs of single-symbol values on a two-leaf AND; every tag name of the protocol x every operator; every sequence of <= 3 negate / ! / and / clone steps applied to a filter that has already been rendered, rendering after each step; each rendered through find, count, list…filter and count…group; non-trivial = trees with several leaves or a value containing a non-alphanumeric byte",
         all_shapes.len(),
         tier.pick(4, 5),
         VALUE_SIGMA,
@@ -370,6 +438,10 @@ pub fn run(tier: Tier) -> i32 {
 }
 
 pub fn replay(case: &Value) -> i32 {
+    if case.get("tag_name").is_some() || case.get("history").is_some() {
+        println!("replay C11: re-running the whole check for this kind of case ({case})");
+        return run(Tier::Quick);
+    }
     let Some(shape) = case["shape"].as_str().and_then(parse_shape) else { return 2 };
     let leaves: Vec<LeafSpec> = case["leaves"]
         .as_array()
